@@ -146,8 +146,28 @@ def replay(path):
     return 0
 
 
+def probe_alias(prop, gh):
+    """Known finding (selector aliasing): prints its KNOWN-FINDING line while the dedicated probe still reproduces."""
+    kf = [k for k in known_findings() if k["id"] == "C01-selector-aliasing" and k.get("status") == "known"]
+    if not kf:
+        return
+    d = os.path.join(scratch(), "probe-alias")
+    os.makedirs(d, exist_ok=True)
+    run([gh, "probe-alias", "-out", "trace.ndjson", "-cases", "cases.ndjson"], cwd=d)
+    res = tlc(None, "TraceEngine.tla", "TraceEngine.cfg", d, workers=1, timeout=600)
+    if not res["ok"]:
+        tlc_failed(res, "alias probe")
+    codes = sorted({c for c, _, _ in res["flags"] if flag_property(c) in ("C01", "C02")})
+    if codes:
+        print("KNOWN-FINDING: property=%s %s (probe flags %s)" % (prop, kf[0]["what"], ",".join(codes)))
+    else:
+        print("NOTE: known finding C01-selector-aliasing no longer reproduces on this tree (probe not flagged)")
+
+
 def check(prop):
     r = evaluate(prop, *PLAN[prop])
+    if prop in ("C01", "C02"):
+        probe_alias(prop, r["gh"])
     return finish(prop, r)
 
 
